@@ -105,6 +105,28 @@ def proj_comp(lw):
     return out, supported
 
 
+def proj_wellview(lw):
+    """The same projection as proj_comp, taken through the per-well query Labware.get_well_composition (real wells,
+    column-major). None when a fraction is not a finite non-negative number (the two views are then not comparable)."""
+    comp = lw.composition
+    shape = lw.volumes.shape
+    for arr in comp.values():
+        a = np.asarray(arr, dtype=float)
+        if not np.all(np.isfinite(a)) or np.any(a < 0):
+            return None
+    out = []
+    for c in range(shape[1]):
+        for r in range(shape[0]):
+            wc = lw.get_well_composition(str(lw.wells[r, c]))
+            label = {nm: (nm if isinstance(nm, str) else f"<{type(nm).__name__} {nm!r}>") for nm in wc.keys()}
+            entries = []
+            for nm in sorted(wc.keys(), key=lambda nm: label[nm]):
+                n, d = proj_frac(wc[nm])
+                entries.append([label[nm], n, d])
+            out.append(entries)
+    return out
+
+
 def proj_entry(label, arr, unit, oplabel=None):
     h = label is not None
     ls = label if isinstance(label, str) else ("" if label is None else str(label))
@@ -445,8 +467,17 @@ class Twin:
 
     # ------------------------------------------------------------------ projection after a call
     def project(self, oplabel=None):
-        post = {"vol": [], "comp": [], "hn": [], "hsame": [], "last": []}
+        post = {"vol": [], "comp": [], "hn": [], "hsame": [], "last": [], "haswv": False}
         cs = True
+        # every third projection also asks every well for its composition (Labware.get_well_composition)
+        self.nproj = getattr(self, "nproj", 0) + 1
+        if self.nproj % 3 == 1:
+            try:
+                wv = [proj_wellview(lw) for lw in self.lws]
+            except Exception:
+                wv = [None]
+            if all(w is not None for w in wv):
+                post["haswv"], post["wview"] = True, wv
         for k, lw in enumerate(self.lws):
             post["vol"].append(proj_vol(lw, self.unit))
             comp, sup = proj_comp(lw)
